@@ -11,6 +11,14 @@ written as skipped slots / written as explicit literal defaults, function and
 method form, call(name, args, kwargs[, receiver]), operator syntax, arguments
 bound as variables and written as source text.
 
+Definitions that collect arbitrary keywords (**kwargs: let, zipLongest, the delegate call) receive the keyword
+NAMES themselves, so for them the names are part of the argument tuple: every name of a keyword-name alphabet
+(the keyword the function knows and 'a', each also with one / two trailing underscores, a leading underscore,
+camelCase, snake_case; the python spelling and the alias of every declared parameter; a pair of names that differ
+only in a trailing underscore) is passed alone and behind one and two positional arguments, written as `name => value` and
+through call()'s kwargs dictionary; besides the result, the keyword names the collector received (payload tap)
+must be the same in every spelling.
+
 Also judged: a method-only definition never runs from a function-form call and
 vice versa (and the error is "unknown function/method" when no definition of
 that name has the other kind); a skipped slot for a parameter without default
@@ -34,7 +42,7 @@ TITLE = 'argument spellings'
 RULE = ('all (definition, argument tuple, set of omitted defaults) groups; within a group all spellings '
         '(form fn/method/op/call/mcall x split point k x omit-or-skip/explicit-default x var/text arguments) '
         'are compared with the first one (function form, everything positional) on (finalised result | '
-        'exception class, number of runs of the definition under test). Resolution errors compare modulo '
+        'exception class, number of runs of the definition under test, keyword names received by a **kwargs collector). Resolution errors compare modulo '
         'Function/Method in the class name. A group is non-trivial when it has >= 2 distinct spelling texts '
         'and the definition under test ran; a case is distinct by (definition, tuple labels, omitted set, spelling text)')
 ASSUMPTIONS = [
@@ -44,10 +52,11 @@ ASSUMPTIONS = [
     'the standard library registers no keyword-only parameter (asserted); a new one makes the run fail loudly',
 ]
 BOUNDS = {
-    'quick': 'argument tuples: corpus star of 2 values per parameter; omitted sets: none, all, every single '
+    'quick': 'argument tuples: corpus star of 2 values per parameter, for the 3 **kwargs collectors additionally every name of the '
+             'keyword-name alphabet (11 shapes + declared-parameter spellings + 1 pair) alone and behind one and two positional arguments; omitted sets: none, all, every single '
              'default omitted, every single default supplied; arguments bound as variables; '
              'the unomitted groups of the first 2 tuples also with variables and source-text arguments on engines with yaql.memoryQuota 50 (exceeded by the string arguments, which are widened by 10 characters here, and by [1, 2], not by an expression object), 56 and 120 bytes',
-    'thorough': 'argument tuples: corpus star of 3 values per parameter; omitted sets: every subset of the defaulted '
+    'thorough': 'argument tuples: corpus star of 3 values per parameter, **kwargs collectors with the keyword-name alphabet as in quick; omitted sets: every subset of the defaulted '
                 'parameters (definitions with more than 8 defaults - characters - subsets of size <= 2 or >= d-1, and '
                 'all 2^d subsets on the base tuple); arguments bound as variables and as source text; '
                 'the unomitted groups of the first 4 tuples on engines with yaql.memoryQuota 48..63, 120 and 500 bytes',
@@ -95,10 +104,14 @@ def setup():
         _state['by_ident'] = {r.ident: r for r in recs}
         _state['taps'] = C.install_taps(recs)
         _state['novalue'] = [0]
+        _state['collected'] = []         # per run of a **kwargs collector: the keyword names its ** parameter received
+        collectors = {r.index: {pd.name for pd in r.fd.parameters.values()} for r in recs if r.varkw is not None}
 
         def observer(index, args, kwargs):
             if any(a is yq.NO_VALUE for a in args):
                 _state['novalue'][0] += 1
+            if index in collectors:
+                _state['collected'].append((index, tuple(sorted(k for k in kwargs if k not in collectors[index]))))
         C.TAP_OBSERVER[0] = observer
         names = collections.defaultdict(set)
         for r in recs:
@@ -117,12 +130,18 @@ def observe(rec, text, variables, extra_runs=0):
     taps = s['taps']
     before = taps[rec.index]
     s['novalue'][0] = 0
+    del s['collected'][:]
     try:
         v = C.evaluate(text, variables, options=_opts[0])
         out = ('v', ('env', type(v).__name__) if rec.name in ENVIRONMENT else canon(v))
     except Exception as e:
         out = ('e', error_class(e))
     return out, taps[rec.index] - before - extra_runs, s['novalue'][0]
+
+
+def collected(rec):
+    """Keyword names the ** parameter of rec received in each of its runs during the last observe()."""
+    return [names for index, names in setup()['collected'] if index == rec.index]
 
 
 # ---------------------------------------------------------------------------
@@ -214,8 +233,8 @@ def spellings(rec, args, supplied, argform):
         for k in range(n, -1, -1):
             if args.var and k != n:
                 continue
-            if form in ('method', 'mcall') and (k == 0 or 0 not in supplied):
-                continue
+            if form in ('method', 'mcall') and ((k == 0 or 0 not in supplied) if n else not args.var):
+                continue                # no receiver (that of a pure *args method is the first of them)
             for fill in ('omit', 'explicit'):
                 if fill == 'explicit' and (explicit is None or not omitted):
                     continue
@@ -284,8 +303,32 @@ def omitted_sets(rec, tier, base):
     return out
 
 
+def keyword_names(rec):
+    """The keyword-name alphabet of a **kwargs collector: its corpus keyword (the one the function knows, else
+    'x') and 'a' in every shape the naming convention treats specially somewhere - trailing underscore(s), leading
+    underscore, camelCase, snake_case - and the python spelling and the alias of every declared parameter."""
+    base = sorted(C.argument_tuples(rec)[-1].kw)[0]
+    names = []
+    for n in (base, 'a'):
+        names += [n, n + '_', n + '__', '_' + n, n + 'B', n + '_b', n + 'B_']
+    for p in rec.params:
+        names += [p.name, p.alias]
+    return [n for i, n in enumerate(names) if n not in names[:i]][1:]      # the corpus keyword itself is already there
+
+
 def tuples_of(rec, tier):
-    return C.argument_tuples(rec, per_param=3 if tier == 'thorough' else 2, mode='star')
+    out = C.argument_tuples(rec, per_param=3 if tier == 'thorough' else 2, mode='star')
+    if rec.varkw is not None:
+        base = out[-1]
+        vs = C.values_for(rec.varkw, rec)
+        v, w = vs[0], vs[min(1, len(vs) - 1)]
+        va = C.values_for(rec.varargs, rec) if rec.varargs is not None else []
+        var = [[]] + ([[va[0]], [va[0], va[-1]]] if va else [])      # zipLongest: [1, 2, 3] and [], the fill value shows
+        for name in keyword_names(rec):
+            out.extend(C.Args(base.pos, a, {name: v}) for a in var)
+        # two names that differ only in a trailing underscore, different values
+        out.extend(C.Args(base.pos, a, {'a': w, 'a_': v}) for a in var)
+    return out
 
 
 def case_of(rec, args, omitted, argform):
@@ -320,8 +363,9 @@ def check_group(res, rec, args, omitted, argform, ti):
         res.evaluations += 1
         res.extra.setdefault('spelling_classes', collections.Counter())[cls] += 1
         ran = ran or runs > 0
+        got = collected(rec)
         if ref is None:
-            ref = (label, text, out, runs, form)
+            ref = (label, text, out, runs, form, got)
             continue
         res.transitions += 1
         # the property demands equal results; the run count of the definition under test is compared only when
@@ -330,6 +374,10 @@ def check_group(res, rec, args, omitted, argform, ti):
             res.fail('spellings-disagree def=%s spelling=%s%s' % (rec.ident, cls, ' under a memory quota' if 'options' in case else ''),
                      dict(case, kind='group', a=ref[1], fa=ref[4], b=text, fb=form),
                      '%s -> %r runs=%d   but   %s -> %r runs=%d' % (ref[1], ref[2], ref[3], text, out, runs))
+        elif runs and ref[3] and got != ref[5]:
+            res.fail('collector-keywords-differ def=%s spelling=%s' % (rec.ident, cls),
+                     dict(case, kind='group', a=ref[1], fa=ref[4], b=text, fb=form),
+                     '%s: **%s received the keyword names %r   but   %s: %r' % (ref[1], rec.varkw.name, ref[5], text, got))
     if len(sp) >= 2 and ran:
         res.nontrivial += 1
     res.outcomes['%s %s%s' % ('group' if len(sp) >= 2 else 'single', 'value' if ref[2][0] == 'v' else ref[2][1],
@@ -692,12 +740,15 @@ def replay(case):
             tail = C.values_for(rec.varargs, rec)[0]
             if tail.make is not None:
                 vs['a1'] = tail.make()
-        return observe(rec, text, vs, extra_runs(rec, form))
+        return observe(rec, text, vs, extra_runs(rec, form))[:2] + (collected(rec),)
     if case['kind'] == 'group':
         a, b = run(case['a'], case['fa']), run(case['b'], case['fb'])
-        return {'observed': {case['a']: repr(a[:2]), case['b']: repr(b[:2])},
-                'expected': 'equal outcomes and equal number of runs of %s' % rec.ident, 'ok': a[:2] == b[:2]}
-    out, runs, novalue = run(case['a'], case['fa'])
+        return {'observed': {case['a']: repr(a), case['b']: repr(b)},
+                'expected': 'equal outcomes, equal number of runs of %s%s'
+                % (rec.ident, ' and the same keyword names received by its **kwargs' if rec.varkw is not None else ''),
+                'ok': a[0] == b[0] and not (a[1] and b[1] and (a[1] != b[1] or a[2] != b[2]))}
+    out, runs, _ = run(case['a'], case['fa'])
+    novalue = s['novalue'][0]
     return {'observed': {'text': case['a'], 'outcome': repr(out), 'runs_of_definition': runs,
                          'payload_calls_with_NoValue': novalue},
             'expected': 'the definition %s does not run' % rec.ident, 'ok': runs == 0}
